@@ -18,8 +18,20 @@ def mk_other(ty):
             'function': lambda: (lambda: 1), 'emptylist': lambda: [], 'emptydict': lambda: {}}[ty]()
 
 
+class IntSub(int):
+    """an int subclass: valid as a scalar value (isinstance), not as a sequence element (exact type test)"""
+
+
+class StrSub(str):
+    pass
+
+
 def mk_scalar(j):
     t = j['t']
+    if t == 'isub':
+        return IntSub(j['v'])
+    if t == 'ssub':
+        return StrSub(j['v'])
     if t == 'none':
         return None
     if t == 'bool':
